@@ -18,3 +18,31 @@ package hex
 
 //@ func (*Version).Compare
 //@   comparator v ~ other                                 [C01]
+
+// ---- constructors: value xor error (C06); the fact is structural (untagged) because callers rely on it
+
+//@ func (*Ecosystem).NewVersion
+//@   ensures xor: (result0 != nil) == (result1 == nil)
+
+//@ func (*Ecosystem).NewVersionRange
+//@   ensures xor: (result0 != nil) == (result1 == nil)
+
+// ---- ranges (C02: a comparator holds exactly when Compare says so; C20: membership depends only on order position)
+
+//@ spec wfRange(r *VersionRange) bool = forall i int :: 0 <= i && i < len(r.constraints) ==> r.constraints[i] != nil && r.constraints[i].version != nil
+
+//@ func (*constraint).matches
+//@   requires c.version != nil
+//@   ensures op=: c.operator == "=" ==> result == (version.Compare(c.version) == 0)   [C02 C20]
+//@   ensures op<: c.operator == "<" ==> result == (version.Compare(c.version) < 0)   [C02 C20]
+//@   ensures op<=: c.operator == "<=" ==> result == (version.Compare(c.version) <= 0)   [C02 C20]
+//@   ensures op>: c.operator == ">" ==> result == (version.Compare(c.version) > 0)   [C02 C20]
+//@   ensures op>=: c.operator == ">=" ==> result == (version.Compare(c.version) >= 0)   [C02 C20]
+//@   ensures other: c.operator != "=" && c.operator != "<" && c.operator != "<=" && c.operator != ">" && c.operator != ">=" ==> !result   [C02 C20]
+
+//@ func (*VersionRange).Contains
+//@   requires wfRange(r)
+//@   ensures and: result == (forall i int :: 0 <= i && i < len(r.constraints) ==> r.constraints[i].matches(version))   [C02 C20]
+
+//@ lemma c20-equal [C20]: forall c *constraint, v1, v2 *Version :: trigger(c.matches(v1), c.matches(v2)) && c != nil && c.version != nil && v1 != nil && v2 != nil && (c.operator == "=" || c.operator == "<" || c.operator == "<=" || c.operator == ">" || c.operator == ">=") && v1.Compare(v2) == 0 ==> c.matches(v1) == c.matches(v2)
+//@ lemma c20-convex [C20]: forall c *constraint, a, b, d *Version :: trigger(c.matches(a), c.matches(d), a.Compare(b), b.Compare(d)) && c != nil && c.version != nil && a != nil && b != nil && d != nil && (c.operator == "=" || c.operator == "<" || c.operator == "<=" || c.operator == ">" || c.operator == ">=") && a.Compare(b) <= 0 && b.Compare(d) <= 0 && c.matches(a) && c.matches(d) ==> c.matches(b)
